@@ -21,7 +21,9 @@ SPECIAL = [
     'a: 1\n---\n/-/-/-/\n---\nb: 2\n',
     'body: |\n  a\n  ---\n  b\n   --- \n',                    # indented / padded terminator-like lines
 ]
-BAD = ['a: [1, 2', 'a: b: c: d', '\t- x\n\t\ty', 'key: "unterminated', '{a: 1', 'a:\n  - b\n c']
+BAD = ['a: [1, 2', 'a: b: c: d', '\t- x\n\t\ty', 'key: "unterminated', '{a: 1', 'a:\n  - b\n c',
+       # well-formed syntax that cannot be decoded: undefined aliases (also in a later document), a scalar violating its tag
+       'settings: *bsae\n', 'a: &x 1\nb: *y\n', '- *second\n', 'ok: 1\n---\nlater: *nowhere\n', 'enabled: !!bool maybe\n']
 
 
 def make_world(g, tag):
